@@ -1723,6 +1723,13 @@ func (in *Interp) call(fr *Frame, c *ast.CallExpr) Value {
 			return in.sprintf(args)
 		case "extfunc:fmt.Errorf":
 			return VErr{"errorf@" + fr.pkg.Fset.Position(c.Pos()).String()}
+		case "extfunc:strconv.Atoi":
+			if ls, ok := args[0].(VStr).isLit(); ok {
+				if n, err := strconv.Atoi(ls); err == nil {
+					return VTuple{[]Value{VInt{Known: true, V: n}, VNil{}}}
+				}
+				return VTuple{[]Value{VInt{Known: true, V: 0}, VErr{"atoi"}}}
+			}
 		case "extfunc:strconv.Itoa":
 			i := args[0].(VInt)
 			if i.Known {
@@ -2188,8 +2195,24 @@ func (in *Interp) nameOfVar(o *VOpaque, org string) Value {
 	if in.decide("NMT:"+tuple+":named|unnamed", 2) == 1 {
 		return lit("")
 	}
-	if in.decide("NM:"+o.Origin+":named|blank", 2) == 1 {
+	// a user may also have chosen a name that looks like one of the generator's own replacement names (param_<k>):
+	// the next position's, or position 0's
+	idx := 0
+	fmt.Sscanf(o.Origin[strings.LastIndex(o.Origin, "[")+1:], "%d", &idx)
+	pre := "param_"
+	if strings.Contains(tuple, ".Results()") {
+		pre = "innerParam_"
+	}
+	switch in.decide("NM:"+o.Origin+":named|blank|clash-next|clash-zero", 4) {
+	case 1:
 		return lit("_")
+	case 2:
+		return lit(pre + strconv.Itoa(idx+1))
+	case 3:
+		if idx == 0 {
+			return lit(pre + "9")
+		}
+		return lit(pre + "0")
 	}
 	return named
 }
